@@ -930,6 +930,17 @@ func (g *progGen) call(env genv, d int) string {
 				continue
 			}
 		} else {
+			// scope option: an explicit param hides the same key of the passed data WHATEVER its value -- also when the
+			// value is undefined at run time (another optional param that is absent, a missing map key, a list index
+			// out of range): the callee must then see the name undefined, not the passed data's value
+			if g.o.scope && passAll && !callee.rec && g.r.Chance(14) {
+				if ex := g.undefExpr(env, p); ex != "" {
+					g.feat("param-overrides-data")
+					g.feat("param-maybe-undefined-overrides-data")
+					params = append(params, "{param "+p.name+": "+ex+" /}"+g.nl())
+					continue
+				}
+			}
 			if passAll && !g.r.Chance(overrideP) {
 				continue
 			}
@@ -1254,6 +1265,37 @@ func (e genv) visible(name string) *gvar {
 		}
 	}
 	return nil
+}
+
+// undefExpr returns an expression that evaluates (or, for an optional param, may evaluate, depending on the data set)
+// to undefined WITHOUT being an error: another optional param of the caller that no let or loop variable shadows, a key
+// no generated map holds, an index beyond every generated list.  "" if nothing of the kind is in scope.
+func (g *progGen) undefExpr(env genv, p gparam) string {
+	var cands []string
+	for _, v := range env.vars {
+		vis := env.visible(v.name)
+		if vis == nil || !vis.param || !v.param {
+			continue
+		}
+		switch {
+		case v.k == kOptInt && v.name != p.name:
+			cands = append(cands, "$"+v.name, "$"+v.name)
+		case v.k == kRec:
+			cands = append(cands, "$"+v.name+".zz9", "$"+v.name+"['zz9']")
+		case v.k == kListInt || v.k == kListStr || v.k == kEList:
+			cands = append(cands, "$"+v.name+"[99]")
+		}
+	}
+	if len(cands) == 0 {
+		return ""
+	}
+	ex := cands[g.r.Intn(len(cands))]
+	for _, v := range env.vars {
+		if v.param && v.used != nil && strings.HasPrefix(ex, "$"+v.name) && (len(ex) == len(v.name)+1 || ex[len(v.name)+1] == '.' || ex[len(v.name)+1] == '[') {
+			*v.used = true
+		}
+	}
+	return ex
 }
 
 func recLitOK(callee *gtemplate) bool {
